@@ -127,11 +127,12 @@ def oracle_pca(ck, rng):
         ch = chs[i % len(chs)]
         if i % 4 == 3:
             # an integer-typed stack (counts): the exact PCA is that of the same numbers
+            mask = None           # (counts are classified as they are)
             X = np.round(X * 12 + 90).astype([np.int16, np.uint8][(i // 4) % 2])
             if X.dtype == np.uint8:
                 X = np.clip(X, 0, 255).astype(np.uint8)
         stack = X if ch is None else da.from_array(X, chunks=ch)
-        c = dict(N=N, shape=shape, n_components=k, mask=["none", "binary", "soft"][i % 3], chunks=ch, seed=ck.seed, i=i, dtype=str(X.dtype))
+        c = dict(N=N, shape=shape, n_components=k, mask=("none" if mask is None else ["none", "binary", "soft"][i % 3]), chunks=ch, seed=ck.seed, i=i, dtype=str(X.dtype))
         fails = []
         try:
             clf = PcaClassifier(stack, mask, n_components=k, n_clusters=2, seed=0).run()
@@ -146,7 +147,7 @@ def oracle_pca(ck, rng):
                     if cs < 0.999: fails.append(f"component {j}: |cos| = {cs:.4f} with the exact one")
                     pj = clf.get_transform()[:, j]
                     sgn = np.sign(comp[j] @ Vt[j])
-                    if np.abs(pj * sgn - proj[:, j]).max() > 2e-2 * S[0]: fails.append(f"projection {j} differs")
+                    if np.abs(pj * sgn - proj[:, j]).max() > 2e-5 * S[0]: fails.append(f"projection {j} differs from the exact one by {np.abs(pj * sgn - proj[:, j]).max() / S[0]:.2g} of the largest singular value")
             lab = np.asarray(clf.labels)
             agree = max((lab == grp).mean(), (lab != grp).mean())
             if agree < 0.99: fails.append(f"separated groups not split (agreement {agree:.2f})")
